@@ -79,30 +79,77 @@ theorem tmplReplace_ok (w : World) (id s : String) : (tmplReplace w id s).2 = (w
 
 /-! ### starting tasks -/
 
+theorem batchRefused_not_ok {env : Env} {fail : List String} {id : String} {t : Task}
+    (h : batchRefused env fail id t = true) : startOK env fail id t = false := by
+  unfold batchRefused at h; unfold startOK
+  cases hb : batchable env t <;> simp_all
+
 theorem startTask_ok (env : Env) (fail : List String) (w : World) (id : String) (t : Task) :
     (startTask env fail w id t).2 = startOK env fail id t := by
   unfold startTask startOK; split
   · simp_all
-  · split <;> simp_all
+  · split
+    · simp_all
+    · split <;> simp_all
 
+theorem View.setExec_idem (V : View) (id : String) (a b : Bool) : (V.setExec id a).setExec id b = V.setExec id b := by
+  unfold View.setExec
+  congr 1
+  funext i
+  by_cases h : i = id <;> simp [h]
+
+theorem View.setExec_self (V : View) (id : String) (b : Bool) (h : V.exec id = b) : V.setExec id b = V := by
+  cases V with
+  | mk T M A E =>
+    unfold View.setExec
+    congr 1
+    funext i
+    by_cases hi : i = id
+    · subst hi; simp at h; simp [h]
+    · simp [hi]
+
+/-- The view after a start attempt, three-way: ok ⇒ executing; batching refused ⇒ NOT executing (whatever it was
+before: TaskMaster.StartTask replaced the entry, StopTask removed it); otherwise untouched. -/
 theorem startTask_view (env : Env) (fail : List String) (w : World) (id : String) (t : Task) :
-    (startTask env fail w id t).1.view = if startOK env fail id t then w.view.setExec id true else w.view := by
-  unfold startTask startOK; split
+    (startTask env fail w id t).1.view =
+      if startOK env fail id t then w.view.setExec id true
+      else if batchRefused env fail id t then w.view.setExec id false else w.view := by
+  unfold startTask startOK batchRefused; split
   · simp_all
-  · split <;> simp_all
+  · split
+    · simp_all
+    · split
+      · simp_all [View.setExec_idem]
+      · simp_all
+
+/-- … for a task that is not executing when the attempt starts (every call site of the code: the task was just
+created / just stopped / was disabled / the TaskMaster is fresh), a failed attempt of either kind changes nothing. -/
+theorem startTask_view_idle (env : Env) (fail : List String) (w : World) (id : String) (t : Task) (hidle : w.exec id = false) :
+    (startTask env fail w id t).1.view = if startOK env fail id t then w.view.setExec id true else w.view := by
+  rw [startTask_view]
+  split
+  · rfl
+  · split
+    · exact View.setExec_self _ _ _ hidle
+    · rfl
 
 theorem startTask_store (env : Env) (fail : List String) (w : World) (id : String) (t : Task) :
     (startTask env fail w id t).1.store = w.store := by
   unfold startTask; split
   · simp
-  · split <;> simp
+  · split
+    · simp
+    · split <;> simp
 
 theorem startTask_exec (env : Env) (fail : List String) (w : World) (id : String) (t : Task) :
-    (startTask env fail w id t).1.exec = fun j => if j = id then (startOK env fail id t || w.exec j) else w.exec j := by
+    (startTask env fail w id t).1.exec =
+      fun j => if j = id then (startOK env fail id t || (w.exec j && !batchRefused env fail id t)) else w.exec j := by
   have h := congrArg View.exec (startTask_view env fail w id t)
   rw [view_exec] at h
   rw [h]
-  cases hs : startOK env fail id t <;> simp [View.setExec]
+  funext j
+  cases hs : startOK env fail id t <;> cases hb : batchRefused env fail id t <;>
+    by_cases hj : j = id <;> simp [View.setExec, hj]
 
 /-! ### rejected requests -/
 
@@ -221,7 +268,9 @@ def Dom (s : Store) : Prop := ∀ i t, s.tasks i = some t → i ∈ s.tids
 theorem openAll_spec (env : Env) (fail : List String) (l : List String) (w : World) :
     (openAll env fail w l).store = w.store ∧
     ∀ i, (openAll env fail w l).exec i = true ↔
-      (w.exec i = true ∨ (i ∈ l ∧ ∃ t, w.store.tasks i = some t ∧ t.enabled = true ∧ startOK env fail i t = true)) := by
+      ((w.exec i = true ∧
+          ¬ (i ∈ l ∧ ∃ t, w.store.tasks i = some t ∧ t.enabled = true ∧ batchRefused env fail i t = true)) ∨
+       (i ∈ l ∧ ∃ t, w.store.tasks i = some t ∧ t.enabled = true ∧ startOK env fail i t = true)) := by
   induction l generalizing w with
   | nil => simp [openAll]
   | cons k rest ih =>
@@ -236,7 +285,10 @@ theorem openAll_spec (env : Env) (fail : List String) (l : List String) (w : Wor
         refine ⟨this.1, fun i => ?_⟩
         rw [this.2 i, startTask_exec]
         by_cases hik : i = k
-        · subst hik; simp [ht, hen]; grind
+        · subst hik
+          have hno := @batchRefused_not_ok env fail i t
+          cases hok : startOK env fail i t <;> cases hbr : batchRefused env fail i t <;>
+            simp [ht, hen, hok, hbr] <;> simp_all
         · simp [hik]
       · rename_i hen
         have := ih w
@@ -269,11 +321,14 @@ theorem boot_spec (env : Env) (fail : List String) (s : Store) (br : List String
 
 /-- Oracle of the scripts used by the witnesses (the attributes the harness prints for s0, t0, td, t1). -/
 def demoEnv : Env := fun s =>
-  if s = "s0" then ⟨true, true, [], true, fun _ => true⟩
-  else if s = "t0" then ⟨true, true, [], true, fun v => v != "v3"⟩
-  else if s = "td" then ⟨true, true, ["pdb.prp"], true, fun v => v != "v3"⟩
-  else if s = "t1" then ⟨true, true, [], true, fun v => v == "v1" || v == "v2"⟩
-  else ⟨false, false, [], false, fun _ => false⟩
+  if s = "s0" then ⟨true, true, [], true, fun _ => true, false, []⟩
+  else if s = "t0" then ⟨true, true, [], true, fun v => v != "v3", false, []⟩
+  else if s = "td" then ⟨true, true, ["pdb.prp"], true, fun v => v != "v3", false, []⟩
+  else if s = "t1" then ⟨true, true, [], true, fun v => v == "v1" || v == "v2", false, []⟩
+  -- batch scripts: b0 queries "db"."rp", b1 queries "odb"."orp" (the harness pool's b0 / b1)
+  else if s = "b0" then ⟨true, true, [], true, fun _ => true, true, ["db.rp"]⟩
+  else if s = "b1" then ⟨true, true, [], true, fun _ => true, true, ["odb.orp"]⟩
+  else ⟨false, false, [], false, fun _ => false, false, []⟩
 
 structure Req where
   op : Op
